@@ -143,6 +143,9 @@ def run_case(c, stacks):
         outcome = "illegal"
     except Exception as e:   # noqa
         outcome = "other:" + type(e).__name__
+    except fakesock.WouldBlockForever:
+        # the call waits for a reply the server was never asked to send (a noreply smuggled into the command): an outcome
+        outcome = "other:WouldBlockForever"
     raw = b"".join(d for _, d in net.wire_log)
     if outcome != "illegal" and raw:
         outcome = "sent"
